@@ -394,7 +394,7 @@ class Gen:
         for o in shortcut1: self.int3(o, "imm", 1)
         for o in shortcut0: self.int3(o, "imm", 0)
         grid = IMMS if tier == "thorough" else [-1, 2, 0x7fffffff, 0x80000000, 0x100000000]
-        for op in (INT3 if tier == "thorough" else ["ADD", "SUB", "MUL", "AND", "LT", "ULT", "EQ", "UDIV", "MOD"]):
+        for op in (INT3 if tier == "thorough" else ["ADD", "SUB", "MUL", "AND", "LT", "ULT", "EQ", "UDIV", "DIV", "MOD"]):
             for o in (op, op + "S"):
                 for imm in grid:
                     pre = pre_of(o)
